@@ -52,6 +52,13 @@ def wellformed(rng, fmt, small=True):
                  tail=rng.choice([0, 0, 1, 100, 5000]), meta_len=rng.choice([MI, 64 * KI, (1 << 32) - 1]))
         if rng.random() < 0.3:
             p['filler_seed'] = rng.getrandbits(30)
+        if rng.random() < 0.5:
+            # the flags word of the metadata table entries (IsUser 0x1, IsVirtualDisk 0x2, IsRequired 0x4; real images
+            # carry 0x6 on the virtual disk size item) and the reserved word: none of it is the size
+            p['vds_flags'] = rng.choice([6, 6, 4, 2, 1, 7, 0xffffffff, rng.getrandbits(32)])
+            p['pad_flags'] = rng.choice([0, 6, 5, 1, rng.getrandbits(32)])
+            if rng.random() < 0.3:
+                p['entry_reserved'] = rng.choice([0, 0xff, 1])
     elif fmt == 'vmdk':
         desc_num = rng.choice([1, 2, 2, 20, 20, 100] + ([] if small else [2048]))
         p = dict(sectors=size_pool(rng, 64), ver=rng.choice([1, 1, 2, 3]), desc_num=desc_num,
@@ -97,10 +104,16 @@ def wellformed(rng, fmt, small=True):
         p = dict(ptes=ptes, total=rng.choice([512, 513, 4096, 66000]))
         if rng.random() < 0.4:
             p['filler_seed'] = rng.getrandbits(30)
+        if rng.random() < 0.35:
+            p['bpb'] = rng.choice([[1, 0xF8], [2, 0xF0], [3, 0xF8], [2, 0xF9], [0, 0xF8], [1, 0xF0], [2, 0], [0xF8, 2]])
     elif fmt == 'gpt':
         p = dict(total=rng.choice([512, 1024, 4096, 66000]),
                  ptes=[[0, 0, 2, 0, 0xEE, rng.getrandbits(8), rng.getrandbits(8), rng.getrandbits(8), 1,
                         rng.choice([0xffffffff, rng.getrandbits(32)])]])
+        if rng.random() < 0.35:
+            p['bpb'] = rng.choice([[1, 0xF8], [2, 0xF0], [3, 0xF8], [2, 0xF9], [0, 0xF8], [1, 0xF0], [2, 0], [0xF8, 2]])
+        elif rng.random() < 0.15:
+            p['fat'] = True        # the boot code happens to hold the FAT pair: not a partition table for the detector
     elif fmt == 'luks':
         payload = rng.choice([0, 1, 2, 8, 8, 64, 2048])
         p = dict(version=1, payload=payload, total=max(592, payload * 512) + rng.choice([0, 1, 1000, 70000]))
